@@ -14,7 +14,8 @@
 (*   DeleteBlock            dao.Simple.DeleteBlock (dao.go:861-908) as     *)
 (*                          run by removeUntraceableBlocks, INCLUDING its  *)
 (*                          early return on a missing record (the rest of  *)
-(*                          the block's records then stay behind)          *)
+(*                          the block's records then stay behind); see     *)
+(*                          GCMode below                                   *)
 (*   Keeps                  mempool.Pool.HasConflicts as used by           *)
 (*                          IsTxStillRelevant / RemoveStale after a block  *)
 (* Store (record st):                                                      *)
@@ -33,10 +34,16 @@
 (***************************************************************************)
 EXTENDS ConflictRec, SequencesExt, TLC
 
-CONSTANT Deviation
-\* "none" | "SignerRecordsFirstAttrOnly" | "GCDropsNewerRecord" | "StubWithoutSignerCheck"
-\*        | "SignerRecordNotRefreshed" | "StaleKeepsNamed"
-
+CONSTANTS Deviation, GCMode
+\* GCMode: what DeleteBlock knows about the transactions of the block it removes.
+\*   "trimmed"  the code as it is: the block it iterates comes from dao.getBlock, which returns a TRIMMED block (hashes
+\*              only: no attributes, no signers), so the transaction cells are removed and nothing else - conflict
+\*              records stay behind for ever (confirmed on the real dao and node: zero drift against this reading)
+\*   "strict"   the text of DeleteBlock taken literally (as if the transactions were complete): records of the removed
+\*              block are removed, and the function RETURNS at the first record it does not find (two transactions of
+\*              one block naming the same hash are enough), leaving the rest of the block's cells behind
+\*   "lenient"  candidate repair: complete transactions, a record that is not there is skipped
+\* All three are model checked against the same abstract invariants.
 None == [k |-> "none", i |-> 0]
 
 EmptyStore(hs, sgs) == [kv |-> [h \in hs |-> None], rec |-> [p \in hs \X sgs |-> 0]]
@@ -90,8 +97,8 @@ RECURSIVE DelSigners(_, _, _, _, _)
 DelSigners(ds, x, sg, k, i) ==
     IF ds.err \/ k > Len(sg) THEN ds
     ELSE LET p == <<x, sg[k]>> IN
-         IF ds.rec[p] = 0 THEN [ds EXCEPT !.err = TRUE]
-         ELSE DelSigners(IF ds.rec[p] = i \/ Deviation = "GCDropsNewerRecord" THEN [ds EXCEPT !.rec[p] = 0] ELSE ds,
+         IF ds.rec[p] = 0 /\ GCMode = "strict" THEN [ds EXCEPT !.err = TRUE]
+         ELSE DelSigners(IF ds.rec[p] # 0 /\ (ds.rec[p] = i \/ Deviation = "GCDropsNewerRecord") THEN [ds EXCEPT !.rec[p] = 0] ELSE ds,
                          x, sg, k + 1, i)
 
 RECURSIVE DelConf(_, _, _, _)
@@ -99,14 +106,15 @@ DelConf(ds, t, j, i) ==
     IF ds.err \/ j > Len(t.conf) THEN ds
     ELSE LET x == t.conf[j]
              v == ds.kv[x]
-         IN IF v.k = "none" THEN [ds EXCEPT !.err = TRUE]
-            ELSE LET d1 == IF v.i = i \/ Deviation = "GCDropsNewerRecord" THEN [ds EXCEPT !.kv[x] = None] ELSE ds
+         IN IF v.k = "none" /\ GCMode = "strict" THEN [ds EXCEPT !.err = TRUE]
+            ELSE LET d1 == IF v.k # "none" /\ (GCMode = "lenient" => v.k = "stub") /\ (v.i = i \/ Deviation = "GCDropsNewerRecord") THEN [ds EXCEPT !.kv[x] = None] ELSE ds
                  IN DelConf(DelSigners(d1, x, t.sg, 1, i), t, j + 1, i)
 
 RECURSIVE DelTxs(_, _, _, _)
 DelTxs(ds, b, k, i) ==
     IF ds.err \/ k > Len(b) THEN ds
-    ELSE DelTxs(DelConf([ds EXCEPT !.kv[b[k].id] = None], b[k], 1, i), b, k + 1, i)
+    ELSE LET d1 == [ds EXCEPT !.kv[b[k].id] = None]
+         IN DelTxs(IF GCMode # "trimmed" THEN DelConf(d1, b[k], 1, i) ELSE d1, b, k + 1, i)
 
 DeleteBlock(st, b, i) == DelTxs([kv |-> st.kv, rec |-> st.rec, err |-> FALSE], b, 1, i)
 
